@@ -427,6 +427,7 @@ def mutate_liberal(bb: Backbone, comb):
 def mutate_strict(bb: Backbone, comb, protected):
     """protected: list of (lo, hi) backbone intervals no variant may touch (untrimmed span)."""
     edits = []
+    full = []
     for v in comb:
         occ = bb.occurrences(v.gene, v.start, v.end)
         if not occ:
@@ -438,9 +439,17 @@ def mutate_strict(bb: Backbone, comb, protected):
                 if lo < ph and hi > pl:
                     return None
             edits.append((i + (s - v.start), i + (e - v.start), alt))
+            full.append((lo, hi, v))
     edits.sort()
     for (a1, b1, _), (a2, b2, _) in zip(edits, edits[1:]):
         if b1 > a2 or (a1 == a2 and b1 == b2):
+            return None
+    # adjacency is a property of the backbone, not of gene coordinates: two records that become neighbours only after
+    # splicing (last base of one exon / first base of the next) are adjacent records like any others, and adjacent
+    # records are required together only as a merged SNV run (which the caller builds in gene coordinates)
+    full.sort(key=lambda x: (x[0], x[1]))
+    for (a1, b1, v1), (a2, b2, v2) in zip(full, full[1:]):
+        if b1 == a2 and not (v1.kind == 'SNV' and v2.kind == 'SNV' and v1.gene == v2.gene and v1.end == v2.start):
             return None
     return O.apply_variants(bb.seq, edits), edits
 
